@@ -181,7 +181,7 @@ pub enum NormalizationKey {
 }
 
 impl NormalizationKey {
-    fn transform_with_parent_variable_context(
+    pub fn transform_with_parent_variable_context(
         &self,
         parent_variable_context: &VariableContext,
     ) -> Self {
